@@ -2766,3 +2766,149 @@ func ruleDecodedSetsKeepIdentity(c *Ctx, rule string) {
 		c.unresolvedRoot("number sets stored through out-pointers of Decoder methods")
 	}
 }
+
+// ruleRetainedSuffixCount: C08.o. When a queue is split into a delivered
+// prefix (elements appended to a local list inside a loop) and a retained
+// suffix (`queue = queue[n:]` with a counter n maintained by the same loop),
+// the counter counts exactly the delivered elements: in every round of the
+// loop the increment of n and the append happen together, so at every exit of
+// the loop body n equals the number of elements delivered. A counter bumped
+// at the top of the round, before the test that leaves the loop, is one too
+// many: the element that stopped the loop (a held-back EXPUNGE) is dropped.
+func ruleRetainedSuffixCount(c *Ctx, rule string, pkgs ...string) {
+	p := c.P
+	n := 0
+	for _, fn := range p.SrcFuncs(pkgs...) {
+		// queue = queue[n:] with n a loop-carried counter
+		allInstrs(fn, func(i ssa.Instruction) {
+			st, ok := i.(*ssa.Store)
+			if !ok {
+				return
+			}
+			rf, ok := fieldOf(st.Addr)
+			if !ok || rf.Field == nil {
+				return
+			}
+			sl, ok := st.Val.(*ssa.Slice)
+			if !ok || sl.Low == nil || sl.High != nil {
+				return
+			}
+			if r0, ok := loadedField(sl.X); !ok || r0.Field != rf.Field {
+				return
+			}
+			if _, isConst := sl.Low.(*ssa.Const); isConst {
+				return
+			}
+			// the counter's increments
+			var incs []*ssa.BinOp
+			seen := map[ssa.Value]bool{}
+			var walk func(v ssa.Value)
+			walk = func(v ssa.Value) {
+				if v == nil || seen[v] {
+					return
+				}
+				seen[v] = true
+				switch x := v.(type) {
+				case *ssa.Phi:
+					for _, e := range x.Edges {
+						walk(e)
+					}
+				case *ssa.BinOp:
+					if x.Op == token.ADD {
+						if k, ok := constInt(x.Y); ok && k == 1 {
+							if _, isPhi := x.X.(*ssa.Phi); isPhi {
+								// not the range index itself (phi starting at -1)
+								if ph := x.X.(*ssa.Phi); len(ph.Edges) == 2 {
+									if k0, ok := constInt(ph.Edges[0]); ok && k0 == -1 {
+										return
+									}
+									if k1, ok := constInt(ph.Edges[1]); ok && k1 == -1 {
+										return
+									}
+								}
+								incs = append(incs, x)
+								walk(x.X)
+							}
+						}
+					}
+				}
+			}
+			walk(sl.Low)
+			if len(incs) == 0 {
+				return
+			}
+			inc := incs[0]
+			// the loop: blocks that can reach the increment's block and are reachable from it
+			inLoop := func(b *ssa.BasicBlock) bool {
+				return (b == inc.Block() || reaches(b, inc.Block())) && (b == inc.Block() || reaches2(inc.Block(), b)) && reaches2(inc.Block(), inc.Block())
+			}
+			if !reaches2(inc.Block(), inc.Block()) {
+				return
+			}
+			// appends in the loop (the delivered list)
+			isAppend := func(j ssa.Instruction) bool {
+				call, ok := j.(*ssa.Call)
+				if !ok {
+					return false
+				}
+				b, ok := call.Call.Value.(*ssa.Builtin)
+				return ok && b.Name() == "append"
+			}
+			hasAppend := false
+			for _, b := range fn.Blocks {
+				if inLoop(b) {
+					for _, j := range b.Instrs {
+						if isAppend(j) {
+							hasAppend = true
+						}
+					}
+				}
+			}
+			if !hasAppend {
+				return
+			}
+			n++
+			flow := mustFlow(fn, facts{}.with("eq"), func(f facts, j ssa.Instruction) facts {
+				if !inLoop(j.Block()) {
+					return f
+				}
+				step := func(f facts, mine, other string) facts {
+					switch {
+					case f.has("eq"):
+						return f.without(func(s string) bool { return s == "eq" }).with(mine)
+					case f.has(other):
+						return f.without(func(s string) bool { return s == other }).with("eq")
+					}
+					return f.without(func(s string) bool { return s == "eq" || s == mine || s == other })
+				}
+				if j == ssa.Instruction(inc) {
+					return step(f, "inc1", "app1")
+				}
+				if isAppend(j) {
+					return step(f, "app1", "inc1")
+				}
+				return f
+			}, nil)
+			bad := token.NoPos
+			for _, b := range fn.Blocks {
+				if !inLoop(b) {
+					continue
+				}
+				for _, s := range b.Succs {
+					// leaving the loop, or going round again
+					if !inLoop(s) || s.Dominates(b) {
+						if f, reach := flow.atEnd(b); reach && !f.has("eq") {
+							bad = instrPos(b.Instrs[len(b.Instrs)-1])
+						}
+					}
+				}
+			}
+			c.check(!bad.IsValid(), rule, fmt.Sprintf("%s: %s = %s[n:] counts the delivered elements", fnKey(fn), rf.Field.Name(), rf.Field.Name()), st.Pos(),
+				"in every round the counter is incremented exactly when an element is appended to the delivered list",
+				"the offset of the retained suffix is incremented in a round that does not deliver its element (or the other way round; loop left at "+p.pos(bad)+"): the element at the boundary is neither delivered nor kept — a held-back EXPUNGE is silently dropped and the session's sequence numbers diverge")
+		})
+	}
+	if n == 0 {
+		c.okTrivial(rule, "no counted retained suffix", token.NoPos, "no queue is re-sliced at a loop-maintained counter in "+strings.Join(pkgs, ","))
+	}
+}
